@@ -180,6 +180,8 @@ func checkOnceBubble(c OnceCase) error {
 					v.fail("after step %d: with %d other keys under slow construction, Get of the new key %d (whose constructor returns at once) has not returned", step, flooded, k)
 				}
 				mu.Unlock()
+			case "idle":
+				time.Sleep(time.Duration(a.Arg) * time.Second)
 			case "fill":
 				// Many other distinct keys are requested and complete while
 				// slow constructions may be in flight.
@@ -268,6 +270,12 @@ func checkOnceBubble(c OnceCase) error {
 			break
 		}
 	}
+	for _, a := range c.Script {
+		if a.Kind == "idle" && a.Arg >= 60 {
+			vp.Class("once:a-minute-or-more-passes-mid-script")
+			break
+		}
+	}
 	if c.AnyKeys != 0 && c.K >= 2 {
 		vp.Class("once:interface-keys-that-print-alike")
 	}
@@ -343,6 +351,11 @@ var onceBubbleProp = vp.Register(vp.Prop[OnceCase]{
 		}
 		if rapid.IntRange(0, 39).Draw(t, "flood") == 0 {
 			acts = append(acts, Act{Kind: "flood", Arg: rapid.SampledFrom([]int{300, 1100, 2100, 4200}).Draw(t, "flooded")})
+		}
+		for j := 0; j < rapid.IntRange(0, 2).Draw(t, "idles"); j++ {
+			// The (bubble's) clock moves on while constructions are in
+			// progress: "slow" has no upper bound.
+			acts = append(acts, Act{Kind: "idle", Arg: rapid.SampledFrom([]int{1, 5, 29, 31, 61, 600, 3601, 86401, 31536001}).Draw(t, "idle")})
 		}
 		for j := 0; j < rapid.IntRange(0, 2).Draw(t, "fills"); j++ {
 			acts = append(acts, Act{Kind: "fill", Arg: rapid.SampledFrom([]int{1, 10, 63, 64, 65, 130, 257}).Draw(t, "fill")})
